@@ -94,3 +94,13 @@ Section Build.
         end
     end.
 End Build.
+
+(* rendering.Sphere as a BVH member.  BoundingBox(start, end) = NewAABB(animation(start), size) hulled with
+   the same box at animation(end).  NewAABB takes the SIZE of the box: the pinned code passes the radius
+   (sphere_box_pinned: the box reaches only radius/2 from the centre; model units: r = 4 * Go radius, even
+   in every witness below), the repaired code the diameter (sphere_box). *)
+Definition sphere_box (c : pt) (r : Z) : box :=
+  ((px c - r, py c - r, pz c - r), (px c + r, py c + r, pz c + r)).
+Definition sphere_box_pinned (c : pt) (r : Z) : box :=
+  ((px c - r / 2, py c - r / 2, pz c - r / 2), (px c + r / 2, py c + r / 2, pz c + r / 2)).
+Definition moving_sphere_box (c0 c1 : pt) (r : Z) : box := enc_box (sphere_box c0 r) (sphere_box c1 r).
